@@ -76,12 +76,16 @@ def compare(ctx, u, slot, text=None):
     if not ctx.sym:
         # the real protocols, on the real build
         with P.activate():
-            for nm, v in (("pickle", pickle.loads(pickle.dumps(u))), ("copy", copy.copy(u)), ("deepcopy", copy.deepcopy(u))):
-                ctx.check("real-%s-equal" % nm, v == u and hash(v) == hash(u) and str(v) == str(u) and v._val == u._val)
+            for nm, mk in (("pickle", lambda: pickle.loads(pickle.dumps(u))), ("copy", lambda: copy.copy(u)), ("deepcopy", lambda: copy.deepcopy(u))):
+                v = mk()
+                ok = call(lambda: v == u and hash(v) == hash(u) and str(v) == str(u) and v._val == u._val)
+                eager = call(lambda: (str(u), hash(u)))
+                if eager[0] == "ok" and any(name == "str" for name, fn in todo):
+                    ctx.check("eager-equals-unpickled:str", ok[0] == "ok" and ok[1] is True, (nm, ok[:2]))
                 for name, fn in todo:
                     if fn is not None or name in methods:
                         continue
-                    ctx.check("real-%s-accessor:%s" % (nm, name), same(call(lambda: getattr(u, name)), call(lambda: getattr(v, name))))
+                    ctx.check("eager-equals-unpickled:" + name, same(call(lambda: getattr(u, name)), call(lambda: getattr(v, name))), nm)
 
 
 def h_netloc(ctx, skeleton, slot, scheme="x"):
@@ -124,7 +128,7 @@ def families(tier):
     fams = []
     NS = ("ns",)
     sks = [("free1", [NS]), ("free2", [NS, NS]), ("free3", [NS, NS, NS]),
-           ("userinfo", ["u", NS, "p", NS, "h"]), ("delims", [("in", "u:@"), ("in", "p:@"), ("in", "h:@"), ":", ("in", "18")]),
+           ("userinfo", ["u", NS, "p", NS, "h"]), ("delims", [("in", "u:@"), ("in", "p:@"), ("in", "h:@"), ":", ("in", "018")]), ("user-port", ["u", ("in", ":@a"), "@h:", ("in", "0189"), ("in", "0189/")]),
            ("port", ["h", NS, ("in", "0189:")]), ("bracket", ["[::1]", NS, NS]), ("empty-host", [("in", "u:@"), ("in", ":@"), ("in", ":80")])]
     if not q:
         sks += [("free4", [NS, NS, NS, NS]), ("delims5", [("in", "u:@["), ("in", "p:@]"), ("in", "h:@"), ("in", ":@1"), ("in", "18:")])]
@@ -134,7 +138,7 @@ def families(tier):
     for nm, sk in sks[:4]:
         fams.append(Family("netloc-http/%s" % nm, h_netloc, dict(skeleton=sk, slot=0, scheme="http")))
     plain = ["", "/", "?q", "#f", "mailto:a@b", "http://h", "http://h:80", "//h?q", "http://[::1]:8/p", "http://ex%41mple.com/%7e?%61=%3D#%2f",
-             "x://:80", "//u@", "//@", "x://u:p@:1/a"]
+             "x://:80", "//u@", "//@", "x://u:p@:1/a", "//[x:x:%2FA]", "http://[v1.x]/p", "http://[::1%25eth0]:8/"]
     for i, t in enumerate(plain):
         for slot in range(NSLOTS):
             fams.append(Family("plain-%d/accessors-%d" % (i, slot), h_plain, dict(text=t, slot=slot)))
